@@ -16,6 +16,7 @@ Definition fop_full (s : state) (p : op) : Prop :=
   match p with
   | OUnion rmp cp => union_ok rmp cp s
   | OSplit | OPatch _ _ _ _ => o_backup (s_cur s) = None
+  | OSubH ats => o_backup (s_cur s) = None /\ closed (o_adj (s_cur s)) ats      (* kept hydrogens are only current for whole components *)
   | _ => fop_ok s p
   end.
 
@@ -25,6 +26,13 @@ Proof.
   destruct p; cbn [fop_full] in Fk; try (now apply step_FW).
   - split; [now apply step_W|]. cbn [step]. now apply Fr_union.
   - now apply FW_split.
+  - (* substructure with kept hydrogens of a set closed under adjacency *)
+    destruct Fk as [B Cl]. cbn [step]. unfold sub_step_g. destruct s as [h o others]. cbn [s_heap s_cur s_others] in *.
+    destruct (substructure_g false ats h o) as [[[h2 o2] e]|err] eqn:E; [|exact Fs].
+    destruct (W_sub_g false ats h o others h2 o2 e Ws E) as [X K].
+    destruct e as [e|]; cbn [fst]; [now apply (FW_heap_ext h h2)|].
+    pose proof (W_cur _ Ws) as Uc. pose proof (FW_cur _ Fs) as Fc. cbn [s_heap s_cur] in Uc, Fc.
+    destruct (part_fresh ats h o h2 o2 (proj1 (proj1 Uc)) Fc B Cl E) as [F2 B2]. apply (FW_add h h2); auto.
   - split; [now apply step_W|]. cbn [step]. apply Fr_lift; [exact Fs | apply patch_good|].
     apply patch_frop; [apply (W_cur s Ws) | now apply FW_cur | now apply WI_cur | exact Fk].
 Qed.
